@@ -72,7 +72,9 @@ class VLemma:
 
 
 class VerusUnit:
-    def __init__(self, name, uses, segments, lemmas=(), rlimit=None, extra_args=()):
+    def __init__(self, name, uses, segments, lemmas=(), rlimit=None, extra_args=(), cex_search=None):
+        # cex_search: {"crate":..., "attach_to": file in /repo, "src": file under vx/<unit>/, "filter": test name prefix}
+        self.cex_search = cex_search
         self.name = name
         self.uses = uses
         self.segments = segments
@@ -350,6 +352,12 @@ def run_unit(unit, tier, want_props=None, logdir=None, seed=0):
         obls.append(o)
     if want_props is not None:
         obls = [o for o in obls if set(o.props) & set(want_props)]
+    violated = [o for o in obls if o.status == VIOLATED]
+    cex_info = None
+    if violated:
+        cex_info = cex_search(unit, logdir) if unit.cex_search else {"ran": False, "found": []}
+        for o in violated:
+            write_replay(unit, o, cex_info)
     extra = {
         "verus_unit": unit.name, "verus_verified_count": vr.get("verified"), "verus_errors": vr.get("errors"),
         "verus_wall_s": round(wall, 2), "canary_functions_refuted": sorted(canary_hit),
@@ -416,6 +424,49 @@ def _lemma_spans(text, unit):
     return res
 
 
+def cex_search(unit, logdir):
+    """Try to attach a concrete failing input on the real code to an already failed obligation."""
+    from common import copy_workspace
+    cs = unit.cex_search
+    ws = os.path.join(scratch_dir("woodpile-cex-"), "ws")
+    copy_workspace(ws)
+    target = os.path.join(ws, cs["attach_to"])
+    src = _read(target)
+    body = _read(os.path.join(VX, unit.name, cs["src"]))
+    open(target, "w").write(src + "\n\n#[cfg(test)]\nmod verif_cex {\n" + body + "\n}\n")
+    rc, out, wall = run(["cargo", "test", "-p", cs["crate"], "--offline", "--lib", cs["filter"], "--", "--nocapture",
+                         "--test-threads", "8"], cwd=ws, timeout=1500, log=os.path.join(logdir, "cex_search.log"))
+    found = sorted(set(re.findall(r"^VERIF-CEX .*$", out, re.M)))
+    ran = bool(re.search(r"test result:", out))
+    return {"ran": ran, "found": found[:20], "wall_s": round(wall, 1), "rc": rc,
+            "note": "" if ran else "search did not run: " + out[-600:]}
+
+
+def write_replay(unit, o, cex_info):
+    from common import REPLAY_DIR
+    d = os.path.join(REPLAY_DIR, "_".join(sorted(o.props)))
+    os.makedirs(d, exist_ok=True)
+    path = os.path.join(d, o.name.replace(":", ".").replace("/", "_") + ".json")
+    found = cex_info.get("found", [])
+    json.dump({"engine": "verus", "unit": unit.name, "obligation": o.name, "owner": o.owner, "text": o.text,
+               "verifier_output": o.detail, "counterexample_search": cex_info,
+               "confirmed_on_real_code": bool(found),
+               "note": ("failing inputs found on the real code by the bounded search (the search decides nothing; the "
+                        "obligation failed in the verifier)" if found else "no failing input found")},
+              open(path, "w"), indent=1)
+    o.replay = path
+    o.replay_confirmed = True if found else None
+
+
 def replay_file(registry, path):
-    raise Undecided("Verus obligations carry no concrete input; see the replay file for the failed obligation "
-                    "and the verifier output, and re-run ./check <ID>")
+    """Re-run the counterexample search of the unit against the current /repo.  True iff failing inputs remain."""
+    rp = json.load(open(path))
+    unit = registry.VERUS_UNITS[rp["unit"]]
+    if not unit.cex_search:
+        raise Undecided("Verus obligation without counterexample search; failed obligation: %s" % rp.get("obligation"))
+    info = cex_search(unit, scratch_dir("woodpile-cexlog-"))
+    if not info["ran"]:
+        raise Undecided(info["note"])
+    for l in info["found"]:
+        print("  " + l)
+    return bool(info["found"])
